@@ -207,6 +207,41 @@ def gen_c03(rnd, n, thorough=False):
                 tags['ops'][kind] = tags['ops'].get(kind, 0) + 1
             _observe(rnd, lines, layout, list(range(k)), now, nwin=2)
         cases.append({'id': 'c03-%d' % c, 'lines': lines, 'tags': tags})
+    # small-scope exhaustive sweeps: a single update at EVERY age from 3 s in the future to 3 s
+    # beyond the maximum retention (best archive and every named one), each on a fresh file so that
+    # the raw dump shows exactly where it went; and every 2-point batch over the same ages
+    small = [[(1, 3), (3, 2)]] if not thorough else [[(1, 3), (3, 2)], [(1, 4), (2, 4)], [(2, 3), (6, 2)], [(1, 2), (2, 2), (4, 3)]]
+    for si, layout in enumerate(small):
+        k = len(layout)
+        Rmax = max(S * N for S, N in layout)
+        top = layout[-1][0]
+        base = 1700000000 - 1700000000 % top
+        for now in ([base + top - 1] if not thorough else [base, base + top - 1]):
+            lines = []
+            nfile = 0
+            for ident in [-1] + list(range(k)):
+                for age in range(-3, Rmax + 4):
+                    name = 'f%d' % nfile; nfile += 1
+                    lines.append(_create(name, layout, 2, 0x3f800000))
+                    lines.append("upd %s %d %d %016x %d" % (name, ident, now - age, fbits(float(age + 100)), now))
+                    for a in range(k):
+                        lines.append("raw %s %d" % (name, a))
+                    lines.append("drop %s" % name)
+            cases.append({'id': 'c03-sweep%d-%d' % (si, now % top), 'lines': lines,
+                          'tags': {'layout': 'sweep%d' % si, 'levels': k, 'ops': {'exhaustive_single': nfile}, 'boundary_ages': 3 * k, 'stale_points': 0}})
+            lines = []
+            nfile = 0
+            for ident in [-1] + list(range(k)):
+                for age1 in range(-1, Rmax + 2):
+                    for age2 in range(-1, Rmax + 2):
+                        name = 'g%d' % nfile; nfile += 1
+                        lines.append(_create(name, layout, 2, 0x3f800000))
+                        lines.append(_many(name, ident, now, [(now - age1, fbits(1.0)), (now - age2, fbits(2.0))]))
+                        for a in range(k):
+                            lines.append("raw %s %d" % (name, a))
+                        lines.append("drop %s" % name)
+            cases.append({'id': 'c03-sweepb%d-%d' % (si, now % top), 'lines': lines,
+                          'tags': {'layout': 'sweep%d' % si, 'levels': k, 'ops': {'exhaustive_pair': nfile}, 'boundary_ages': 0, 'stale_points': 0}})
     return cases
 
 
@@ -278,6 +313,27 @@ def gen_c04(rnd, n, thorough=False):
             lines.append("fetch f %d %d %d %d" % (a, fr, un, now))
             tags['ops'][e] = tags['ops'].get(e, 0) + 1
         cases.append({'id': 'c04-%d' % c, 'lines': lines, 'tags': tags})
+    # small-scope exhaustive sweeps: EVERY (archive id, from, until) around a small layout, for an
+    # aligned and an unaligned clock, on a never-written and on a fully written file
+    small = [[(1, 3), (3, 2)]] if not thorough else [[(1, 3)], [(1, 3), (3, 2)], [(1, 4), (2, 4)], [(2, 3), (6, 2)], [(1, 2), (2, 2), (4, 3)]]
+    for si, layout in enumerate(small):
+        k = len(layout)
+        Rmax = max(S * N for S, N in layout)
+        top = layout[-1][0]
+        base = 1700000000 - 1700000000 % top
+        for now in ([base + top - 1] if not thorough else [base, base + 1, base + top - 1]):
+            for fill in (['full'] if not thorough else ['empty', 'full']):
+                lines = [_create('f', layout, 2, 0)]
+                if fill == 'full':
+                    for a, (S, N) in enumerate(layout):
+                        lines.append(_many('f', a, now, [(now - j * S, fbits(float(10 * a + j))) for j in range(N)]))
+                lo, hi = now - Rmax - 3, now + 3
+                for a in range(-2, k + 1):
+                    for fr in range(lo, hi + 1):
+                        for un in range(lo, hi + 1):
+                            lines.append("fetch f %d %d %d %d" % (a, fr, un, now))
+                cases.append({'id': 'c04-sweep%d-%d-%s' % (si, now % top, fill), 'lines': lines,
+                              'tags': {'layout': 'sweep%d' % si, 'levels': k, 'fill': fill, 'ops': {'exhaustive': len(lines)}}})
     return cases
 
 
